@@ -8,6 +8,7 @@ import (
 	"math/rand"
 	"strconv"
 	"strings"
+	"sync"
 
 	"github.com/tendermint/tendermint/crypto/merkle"
 	"github.com/tendermint/tendermint/types"
@@ -115,6 +116,81 @@ func execCase(c core.Case) []string {
 		case "verify":
 			p := parseProof(m)
 			out = append(out, verifyClass(p.Verify(unhx(m["root"]), unhx(m["leaf"]))))
+		case "croots":
+			items := unhxList(m["items"])
+			k, _ := strconv.Atoi(m["k"])
+			res := make([]string, k)
+			var wg sync.WaitGroup
+			start := make(chan struct{})
+			for j := 0; j < k; j++ {
+				wg.Add(1)
+				go func(j int) {
+					defer wg.Done()
+					rot := items
+					if len(items) > 0 {
+						r := j % len(items)
+						rot = append(append([][]byte{}, items[r:]...), items[:r]...)
+					}
+					<-start
+					res[j] = hx(merkle.HashFromByteSlices(rot))
+				}(j)
+			}
+			close(start)
+			wg.Wait()
+			out = append(out, strings.Join(res, ","))
+		case "cverify":
+			k, _ := strconv.Atoi(m["k"])
+			res := make([]string, k)
+			root, leaf := unhx(m["root"]), unhx(m["leaf"])
+			var wg sync.WaitGroup
+			start := make(chan struct{})
+			for j := 0; j < k; j++ {
+				wg.Add(1)
+				go func(j int) {
+					defer wg.Done()
+					p := parseProof(m)
+					lf := append([]byte{}, leaf...)
+					if len(lf) > 0 {
+						lf[len(lf)-1] ^= byte(j)
+					}
+					<-start
+					res[j] = verifyClass(p.Verify(root, lf))
+				}(j)
+			}
+			close(start)
+			wg.Wait()
+			out = append(out, strings.Join(res, ","))
+		case "cadd":
+			k, _ := strconv.Atoi(m["k"])
+			idx, _ := strconv.Atoi(m["idx"])
+			cnt := map[string]int{}
+			var mu sync.Mutex
+			var wg sync.WaitGroup
+			start := make(chan struct{})
+			for j := 0; j < k; j++ {
+				wg.Add(1)
+				go func() {
+					defer wg.Done()
+					part := &types.Part{Index: uint32(idx), Bytes: unhx(m["bytes"]), Proof: parseProof(m)}
+					<-start
+					added, err := ps.AddPart(part)
+					r := "dup"
+					switch {
+					case err == types.ErrPartSetUnexpectedIndex:
+						r = "err-index"
+					case err != nil:
+						r = "err-proof"
+					case added:
+						r = "added"
+					}
+					mu.Lock()
+					cnt[r]++
+					mu.Unlock()
+				}()
+			}
+			close(start)
+			wg.Wait()
+			out = append(out, fmt.Sprintf("added=%d dup=%d err-index=%d err-proof=%d", cnt["added"], cnt["dup"], cnt["err-index"], cnt["err-proof"]))
 		case "txhash":
 			out = append(out, hx(toTxs(unhxList(m["txs"])).Hash()))
 		case "txproof":
@@ -176,16 +252,23 @@ func execCase(c core.Case) []string {
 			c := ps.IsComplete()
 			b := "?"
 			if c {
-				var buf bytes.Buffer
-				if ps.Total() > 0 {
-					if _, err := buf.ReadFrom(ps.GetReader()); err != nil {
-						b = "read-error"
+				func() {
+					defer func() {
+						if r := recover(); r != nil {
+							b = "read-panic"
+						}
+					}()
+					var buf bytes.Buffer
+					if ps.Total() > 0 {
+						if _, err := buf.ReadFrom(ps.GetReader()); err != nil {
+							b = "read-error"
+						} else {
+							b = hx(buf.Bytes())
+						}
 					} else {
-						b = hx(buf.Bytes())
+						b = "-"
 					}
-				} else {
-					b = "-"
-				}
+				}()
 			}
 			out = append(out, fmt.Sprintf("complete=%v count=%d bytes=%s", c, ps.Count(), b))
 		default:
@@ -241,7 +324,47 @@ func oracle(c core.Case, out []string) []core.Finding {
 						Desc: fmt.Sprintf("AddPart accepted bytes %s at slot %d which is not the %d-th piece of the committed data", m["bytes"], idx, idx)})
 				}
 			}
+		case "cadd":
+			var a, d, e1, e2 int
+			fmt.Sscanf(out[i], "added=%d dup=%d err-index=%d err-proof=%d", &a, &d, &e1, &e2)
+			if a > 1 {
+				fs = append(fs, core.Finding{Fingerprint: "partset.AddPart.concurrent-duplicate-counted-twice",
+					Desc: fmt.Sprintf("the same part delivered by several goroutines at once was added %d times", a)})
+			}
+			if a >= 1 && genuineHdr && pieces != nil {
+				idx, _ := strconv.Atoi(m["idx"])
+				if idx >= len(pieces) || !bytes.Equal(pieces[idx], unhx(m["bytes"])) {
+					fs = append(fs, core.Finding{Fingerprint: "partset.AddPart.accepts-wrong-position",
+						Desc: fmt.Sprintf("concurrent AddPart accepted bytes at slot %d which are not that piece", idx)})
+				}
+			}
+		case "croots":
+			items := unhxList(m["items"])
+			for j, r := range strings.Split(out[i], ",") {
+				rot := items
+				if len(items) > 0 {
+					k := j % len(items)
+					rot = append(append([][]byte{}, items[k:]...), items[:k]...)
+				}
+				if r != hx(merkle.HashFromByteSlices(rot)) {
+					fs = append(fs, core.Finding{Fingerprint: "merkle.root.concurrent-result-differs-from-sequential",
+						Desc: "a Merkle root computed while other goroutines hash concurrently differs from the root of the same items computed alone: the root does not commit to the data"})
+					break
+				}
+			}
+		case "cverify":
+			// goroutine j verifies the leaf with its last byte xor j: only j=0 may be accepted
+			for j, r := range strings.Split(out[i], ",") {
+				if j > 0 && r == "ok" && m["leaf"] != "-" {
+					fs = append(fs, core.Finding{Fingerprint: "merkle.Verify.concurrent-accepts-forged-leaf",
+						Desc: fmt.Sprintf("under concurrent verification a leaf with a flipped last byte (xor %d) was accepted", j)})
+				}
+			}
 		case "done":
+			if strings.Contains(out[i], "read-panic") {
+				fs = append(fs, core.Finding{Fingerprint: "partset.complete-but-unreadable",
+					Desc: "part set reports complete but reading it panics (a slot is empty): " + out[i]})
+			}
 			if strings.HasPrefix(out[i], "complete=true") && data != nil && genuineHdr {
 				if !strings.HasSuffix(out[i], "bytes="+hx(data)) {
 					fs = append(fs, core.Finding{Fingerprint: "partset.complete-reassembles-other-bytes",
@@ -286,6 +409,11 @@ func oracle(c core.Case, out []string) []core.Finding {
 			leaf := unhx(m["leaf"])
 			genuine := tot == int64(len(items)) && idx >= 0 && idx < tot && bytes.Equal(items[idx], leaf)
 			if genuine {
+				_, gp := merkle.ProofsFromByteSlices(items)
+				if hxList(gp[idx].Aunts) != m["aunts"] {
+					fs = append(fs, core.Finding{Fingerprint: "merkle.Verify.accepts-non-genuine-path",
+						Desc: fmt.Sprintf("Proof.Verify accepted the item at (index %d, total %d) with a path that is not the tree's path for that position (%d aunts instead of %d)", idx, tot, len(unhxList(m["aunts"])), len(gp[idx].Aunts))})
+				}
 				continue
 			}
 			in := false
@@ -376,8 +504,14 @@ func mutateProof(r *rand.Rand, p merkle.Proof, other *merkle.Proof) (merkle.Proo
 		}
 		name = "aunt-drop-first"
 	case 8:
-		p.Aunts = append(p.Aunts, rbytes(r, 32))
-		name = "aunt-extra"
+		// junk inserted anywhere in the path (leaf end, middle, root end)
+		at := r.Intn(len(p.Aunts) + 1)
+		junk := rbytes(r, 32)
+		if r.Intn(3) == 0 && len(p.Aunts) > 0 {
+			junk = append([]byte{}, p.Aunts[r.Intn(len(p.Aunts))]...)
+		}
+		p.Aunts = append(p.Aunts[:at], append([][]byte{junk}, p.Aunts[at:]...)...)
+		name = "aunt-insert"
 	case 9:
 		if len(p.Aunts) > 0 {
 			i := r.Intn(len(p.Aunts))
@@ -450,6 +584,56 @@ func genMerkle(r *rand.Rand, emit func(core.Case), n int) {
 			ops = append(ops, verifyOp(rt, leaf, p, items))
 		}
 		emit(core.Case{Kind: "merkle", Ops: ops})
+	}
+}
+
+// genConcurrent: the same operations issued from several goroutines at once must behave like
+// some sequential order (large leaves = block-part sized, where allocation shortcuts live).
+func genConcurrent(r *rand.Rand, emit func(core.Case), n int) {
+	for c := 0; c < n; c++ {
+		cnt := 2 + r.Intn(4)
+		items := make([][]byte, cnt)
+		for i := range items {
+			sz := r.Intn(6)
+			if r.Intn(3) != 0 {
+				sz = 4096 + r.Intn(3000)
+			}
+			items[i] = make([]byte, sz)
+			r.Read(items[i])
+		}
+		root, proofs := merkle.ProofsFromByteSlices(items)
+		ops := []string{fmt.Sprintf("croots items=%s k=%d", hxList(items), 2+r.Intn(5))}
+		for v := 0; v < 3; v++ {
+			i := r.Intn(cnt)
+			p := cloneProof(proofs[i])
+			ops = append(ops, fmt.Sprintf("cverify root=%s leaf=%s pidx=%d ptotal=%d lh=%s aunts=%s k=%d",
+				hx(root), hx(items[i]), p.Index, p.Total, hx(p.LeafHash), hxList(p.Aunts), 2+r.Intn(6)))
+		}
+		// concurrent repeated delivery of parts
+		dl := 2 + r.Intn(30)
+		k := 1 + r.Intn(6)
+		if r.Intn(2) == 0 {
+			dl = 9000 + r.Intn(9000)
+			k = 4096 + r.Intn(2000)
+		}
+		data := make([]byte, dl)
+		r.Read(data)
+		ps := types.NewPartSetFromData(data, uint32(k))
+		total := int(ps.Total())
+		ops = append(ops, fmt.Sprintf("new data=%s psize=%d", hx(data), k), fmt.Sprintf("hdr total=%d root=%s", total, hx(ps.Hash())))
+		for _, i := range r.Perm(total) {
+			if r.Intn(5) == 0 {
+				continue
+			}
+			pt := ps.GetPart(i)
+			p := cloneProof(&pt.Proof)
+			ops = append(ops, fmt.Sprintf("cadd k=%d idx=%d bytes=%s pidx=%d ptotal=%d lh=%s aunts=%s", 2+r.Intn(6), i, hx(pt.Bytes), p.Index, p.Total, hx(p.LeafHash), hxList(p.Aunts)))
+			if r.Intn(3) == 0 {
+				ops = append(ops, "done")
+			}
+		}
+		ops = append(ops, "done")
+		emit(core.Case{Kind: "concurrent", Ops: ops})
 	}
 }
 
@@ -567,12 +751,13 @@ func main() {
 			genMerkle(r, emit, n)
 			genPartSet(r, emit, n)
 			genTx(r, emit, n/2)
+			genConcurrent(r, emit, n/4)
 		},
 		Exec:   execCase,
 		Oracle: oracle,
 		NonTrivial: func(c core.Case, out []string) bool {
 			for _, o := range out {
-				if o == "ok" || o == "added" {
+				if o == "ok" || o == "added" || strings.HasPrefix(o, "added=1") || strings.HasPrefix(o, "ok,") {
 					return true
 				}
 			}
